@@ -16,7 +16,8 @@ package validation
 //verif:assume SHA3-256 is an uninterpreted collision-free function for the solver (real in validation and replay)
 //verif:assume a coinbase input creates value by design: for transactions with a coinbase input only conservation of non-BTM assets and agreement of the reported fee with TxData.Fee() are asserted, not "BTM in >= BTM out"
 //verif:outside non-trivial control programs (VM semantics: C07/C08), more than 2 inputs or outputs, asset ids differing from BTM outside their first 8 bytes
-//verif:obligation fn=VerifC01Shape args=1,0,1,0 validate=12
+//verif:obligation fn=VerifC01Shape args=1,0,1,0;4,0,1,0;4,1,1,0;3,0,2,0;1,0,1,3;1,0,2,1;2,1,1,0;1,1,1,0 validate=12 mode=int secs=900
+//verif:obligation fn=VerifC01Shape args=1,1,1,1;2,1,1,3;3,1,2,1;4,1,1,1;2,2,1,1;1,3,3,2 mode=int tier=thorough secs=3000
 
 import (
 	"math/bits"
@@ -163,5 +164,7 @@ func VerifC01Shape(i0 int, i1 int, o0 int, o1 int) {
 			verifAssert(inHi == outHi && inLo == outLo, "non-btm-asset-conserved")
 		}
 	}
+	// a coinbase input together with a value-carrying input: see known_findings.json
+	verifKnown("KF-C01-COINBASE-MIXED", hasCoinbase && len(td.Inputs) > 1)
 	verifAssert(gas.BTMValue == fee, "reported-fee-equals-txdata-fee")
 }
